@@ -490,6 +490,12 @@ func describeValue(v ssa.Value) string {
 }
 
 func init() {
+	extend("C02", "(P02-open-range-derived) a record's open range is found by searching its entry list each time, so that it is still found after a filter replaced the list.", ruleP02OpenRangeDerived)
+	extend("C11", "(P11-apply-always) a reconciler consults the reformat directive on every path that goes on to write the generated value.", ruleP11ApplyAlways)
+	extend("C02", "Also (P17-follow-fresh): every redraw of today --follow closes the open range at the then-current time.", ruleP17FollowFresh)
+	extend("C04", "(P04-pause-position) the pause AppendPause adds goes to the end of the record, where ExtendPause's selector (the last non-positive duration entry) finds it.", ruleP04PausePosition)
+	extend("C03", "Also (P04-pause-position): otherwise the periodic step of `klog pause` rewrites an older pause line that the command was not started for.", ruleP04PausePosition)
+	extend("C10", "(P10-origin) the origin of an error is the path of the very file whose contents the parse call that produced it was given.", ruleP10Origin)
 	extend("C15", "(P15-pattern-dispatch) each of the four pattern parsers is asked for every text the ones before it refused; none is reached only under a condition on the text itself.", ruleP15PatternDispatch)
 	extend("C13", "Also (P12-now-applied, P15-pattern-dispatch): every evaluating command filters first and applies --now to what the filter selected — a range closed beforehand is no longer an open range for --entry-type; --period reaches the pattern parsers unconditionally.", ruleP12NowApplied, ruleP15PatternDispatch)
 	extend("C14", "Also (P12-now-applied): the per-tag totals are computed after --now was applied.", ruleP12NowApplied)
@@ -2297,5 +2303,252 @@ func ruleP15PatternDispatch(p *Prog, r *Report) {
 		if !want[name] {
 			r.bad(rule, "parser:"+name, p.pos(f.Pos()), "%s is never asked: no pattern of that kind is recognised", name)
 		}
+	}
+}
+
+// P10-origin — an error names the file it was found in: SetOrigin(x.Path()) is applied to the
+// errors that parsing x.Contents() produced, and to no others (not to the list accumulated over
+// all files so far — SetOrigin changes the error in place, so the later file would take over the
+// errors of the earlier ones: "line 40 of b.klg", a file of three lines).
+func ruleP10Origin(p *Prog, r *Report) {
+	const rule = "P10-origin"
+	n := 0
+	for _, f := range p.srcFns {
+		if pkgPathOfFn(f) != modPath+"/klog/app" || len(f.Blocks) == 0 {
+			continue
+		}
+		idx := 0
+		eachInstr(f, func(in ssa.Instruction) {
+			c, ok := in.(ssa.CallInstruction)
+			if !ok {
+				return
+			}
+			nm, recv, args, _ := methodCallOf(c)
+			if nm != "SetOrigin" || len(args) != 1 {
+				return
+			}
+			n++
+			idx++
+			key := fmt.Sprintf("%s:SetOrigin#%d", fnName(outermost(f)), idx)
+			coll := rangeElemOf(recv)
+			if coll == nil {
+				r.bad(rule, key, p.instrPos(c), "the error that is given its origin is not an element of an error list that is gone through")
+				return
+			}
+			// the list: the errors of one Parse call
+			pc, pi := callOf(strip(coll))
+			if pc == nil || pi < 1 {
+				r.bad(rule, key, p.instrPos(c), "the origin is stamped onto the errors of %s, not onto the errors one parse call returned: the file named is the last one read, whichever file the error was found in", describeValue(coll))
+				return
+			}
+			pn, _, pargs, _ := methodCallOf(pc)
+			if pn != "Parse" || len(pargs) != 1 {
+				r.bad(rule, key, p.instrPos(c), "the origin is stamped onto the errors of %s, not onto the errors one parse call returned", describeValue(coll))
+				return
+			}
+			// same file: Path() and Contents() of one and the same value
+			an, afile, _, _ := methodCall(args[0])
+			cn, cfile, _, _ := methodCall(pargs[0])
+			same := an == "Path" && cn == "Contents" && afile != nil && cfile != nil && (sameValue(afile, cfile) || strip(afile) == strip(cfile))
+			r.check(same, rule, key, p.instrPos(c), "the errors of parsing x.Contents() are given x.Path() as their origin", "the origin given to the errors is not the path of the file whose contents were parsed")
+		})
+	}
+	if n < 2 {
+		r.undecided(rule, "floor", "-", "found %d places where parser errors are given their origin, expected 2 (ReadInputs, ReconcileFile)", n)
+	}
+}
+
+// P04-pause-position — the pause that `klog pause` adds is the LAST entry of its record: the
+// once-a-minute step (ExtendPause) finds "its" pause as the last entry that is a non-positive
+// duration, so AppendPause and that selector agree only when the new pause goes to the end of
+// the record (AppendEntry, or insert at lastLinePointer). Anywhere else — directly under the
+// open range, say — an older pause further down is what gets extended, minute after minute.
+func ruleP04PausePosition(p *Prog, r *Report) {
+	const rule = "P04-pause-position"
+	f := p.method("klog/parser/reconciling", "Reconciler", "AppendPause")
+	if !r.anchorFn(rule, f, "Reconciler.AppendPause") {
+		return
+	}
+	var atEnd []ssa.CallInstruction
+	bad := ""
+	for _, vi := range virtualInstrs(f) {
+		c, ok := vi.in.(ssa.CallInstruction)
+		if !ok {
+			continue
+		}
+		nm, _, args, _ := methodCallOf(c)
+		switch nm {
+		case "AppendEntry":
+			if len(vi.chain) == 0 {
+				atEnd = append(atEnd, c)
+			}
+		case "insert":
+			vi.run(func() {
+				pl := polyOf(args[0])
+				isEnd := pl.C == 0 && len(pl.Terms) == 1
+				for k, coef := range pl.Terms {
+					if coef != 1 || !strings.HasSuffix(k, ".lastLinePointer") {
+						isEnd = false
+					}
+				}
+				if isEnd {
+					if len(vi.chain) == 0 {
+						atEnd = append(atEnd, c)
+					} else {
+						atEnd = append(atEnd, vi.chain[0])
+					}
+				} else {
+					bad = p.instrPos(c) + " (at " + pl.String() + ")"
+				}
+			})
+		}
+	}
+	r.check(bad == "", rule, "position", p.pos(f.Pos()), "the new pause is inserted at the end of the record only", "AppendPause inserts the new pause at "+bad+", not at the end of the record: ExtendPause — which extends the LAST non-positive duration entry — then rewrites an older pause that stands further down, and the new one never moves")
+	for i, ret := range returnsOf(f) {
+		ev := retResult(ret, 0)
+		if !isNilConst(ev) && p.nilnessAt(ret.Block(), ev, 0) == nnNonNil {
+			continue
+		}
+		done := false
+		for _, c := range atEnd {
+			if c.Block() == ret.Block() || c.Block().Dominates(ret.Block()) {
+				done = true
+			}
+			if cv, isV := c.(ssa.Value); isV && strip(ev) == cv {
+				done = true
+			}
+		}
+		r.check(done, rule, fmt.Sprintf("return#%d", i), p.instrPos(ret), "a successful return has appended the pause at the end of the record", "AppendPause can return successfully without having appended the pause at the end of the record")
+	}
+}
+
+// P11-apply-always — wherever a reconciler writes a generated date or time, the reformat
+// directive is consulted on every path that goes on to write: the call of
+// ReformatDirective.apply is skipped only where the operation is refused altogether. A further
+// condition in front of it ("the file has no records yet, so there is no style to follow")
+// also skips the EXPLICIT directive — the configured format — and the value is written in
+// the default notation instead.
+func ruleP11ApplyAlways(p *Prog, r *Report) {
+	const rule = "P11-apply-always"
+	n := 0
+	for _, f := range p.srcFns {
+		if pkgPathOfFn(f) != modPath+"/klog/parser/reconciling" || len(f.Blocks) == 0 {
+			continue
+		}
+		idx := 0
+		eachInstr(f, func(in ssa.Instruction) {
+			c, ok := in.(ssa.CallInstruction)
+			if !ok {
+				return
+			}
+			callee := rawStaticCallee(c)
+			if callee == nil || callee.Signature.Recv() == nil || typeNameOf(callee.Signature.Recv().Type()) != "ReformatDirective" || fnBase(callee) == "" {
+				return
+			}
+			if originFn(f).Signature.Recv() != nil && typeNameOf(originFn(f).Signature.Recv().Type()) == "ReformatDirective" {
+				return // the directive's own methods calling each other
+			}
+			n++
+			idx++
+			key := fmt.Sprintf("%s:%s#%d", fnName(outermost(f)), fnBase(callee), idx)
+			bad := ""
+			for _, gd := range plainGuardsOf(c.Block()) {
+				if gd.If == nil {
+					continue
+				}
+				ib := gd.If.Block()
+				other := ib.Succs[1]
+				if !gd.Pol {
+					other = ib.Succs[0]
+				}
+				if other == c.Block() || other.Dominates(c.Block()) {
+					continue
+				}
+				msg := rejectComplete(other, func(ret *ssa.Return) string {
+					for i := range ret.Results {
+						v := retResult(ret, i)
+						if isErrorLike(v.Type()) && p.nilnessAt(ret.Block(), v, 0) == nnNonNil {
+							return ""
+						}
+					}
+					if len(ret.Results) > 0 && isNilConst(retResult(ret, 0)) {
+						return "" // "not applicable": no reconciler
+					}
+					return "goes on successfully"
+				})
+				if msg != "" {
+					bad = gd.Cond.String()
+				}
+			}
+			r.check(bad == "", rule, key, p.instrPos(c), "the directive is consulted on every path that goes on to write the value", "the reformat directive is consulted only under a further condition ("+bad+"), and the operation goes on without it otherwise: on those paths the value is written in the default notation whatever the configured format or the file's style says")
+		})
+	}
+	if n < 3 {
+		r.undecided(rule, "floor", "-", "found %d uses of a reformat directive in package reconciling, expected at least 3", n)
+	}
+}
+
+// P02-open-range-derived — which entry of a record is its open range is looked up in the entry
+// list every time it is asked for (OpenRange, EndOpenRange): a search over r.entries, not a
+// position or pointer remembered from when the entry was added. The entry list is replaced as a
+// whole elsewhere (SetEntries, used by the tag and entry-type filters); anything remembered about
+// it is stale afterwards, and --now then finds no open range to close in a filtered record.
+func ruleP02OpenRangeDerived(p *Prog, r *Report) {
+	const rule = "P02-open-range-derived"
+	or := p.method("klog", "record", "OpenRange")
+	eor := p.method("klog", "record", "EndOpenRange")
+	if !r.anchorFn(rule, or, "(*record).OpenRange") || !r.anchorFn(rule, eor, "(*record).EndOpenRange") {
+		return
+	}
+	isEntriesOfRecv := func(f *ssa.Function, coll ssa.Value) bool {
+		base, fld := fieldLoad(coll)
+		return fld == "entries" && base != nil && strip(base) == ssa.Value(f.Params[0])
+	}
+	// OpenRange: a non-nil answer is the type-asserted value of an element found by ranging over
+	// the receiver's entries
+	for i, ret := range returnsOf(or) {
+		v := retResult(ret, 0)
+		if isNilConst(v) {
+			continue
+		}
+		ok := false
+		if ex, isEx := strip(v).(*ssa.Extract); isEx && ex.Index == 0 {
+			if ta, isTA := ex.Tuple.(*ssa.TypeAssert); isTA {
+				if base, fld := fieldLoad(ta.X); fld == "value" && base != nil {
+					if coll := rangeElemOf(base); coll != nil && isEntriesOfRecv(or, coll) {
+						ok = true
+					}
+				}
+			}
+		}
+		if mi, isMI := strip(v).(*ssa.MakeInterface); isMI && !ok {
+			if ex, isEx := strip(mi.X).(*ssa.Extract); isEx && ex.Index == 0 {
+				if ta, isTA := ex.Tuple.(*ssa.TypeAssert); isTA {
+					if base, fld := fieldLoad(ta.X); fld == "value" && base != nil {
+						if coll := rangeElemOf(base); coll != nil && isEntriesOfRecv(or, coll) {
+							ok = true
+						}
+					}
+				}
+			}
+		}
+		r.check(ok, rule, fmt.Sprintf("OpenRange:return#%d", i), p.instrPos(ret), "the open range handed out is the one found by going through the record's entries", "OpenRange() does not find the open range by going through r.entries (it is "+describeValue(v)+"): whatever it relies on instead is not kept up to date when the entry list is replaced (SetEntries), and the open range of a filtered record is no longer found")
+	}
+	// EndOpenRange: the entry replaced is the one at the index at which the search found it
+	n := 0
+	eachVInstr(eor, func(in ssa.Instruction) {
+		st, ok := in.(*ssa.Store)
+		if !ok {
+			return
+		}
+		ia, ok := st.Addr.(*ssa.IndexAddr)
+		if !ok || !isEntriesOfRecv(eor, ia.X) {
+			return
+		}
+		n++
+		r.check(indexesOwn(ia.X, ia.Index), rule, fmt.Sprintf("EndOpenRange:replace#%d", n), p.instrPos(st), "the entry replaced is the one at which the search over the record's entries stands", "EndOpenRange replaces the entry at a remembered position ("+describeValue(ia.Index)+") instead of the one its search over r.entries found")
+	})
+	if n == 0 {
+		r.undecided(rule, "EndOpenRange:replace", p.pos(eor.Pos()), "EndOpenRange does not replace an element of r.entries")
 	}
 }
